@@ -168,6 +168,10 @@ def run(tier, replay=None):
            ("include without href", {"a.xml": '<?xml version="1.0"?><messageSchema package="p" id="1" version="0"><include/></messageSchema>'}),
            ("include of the same valid schema twice", {"a.xml": '<?xml version="1.0"?><messageSchema package="p" id="1" version="0"><include href="g.xml"/><include href="g.xml"/></messageSchema>', "g.xml": good}),
            ("include of a valid schema", {"a.xml": '<?xml version="1.0"?><messageSchema package="p" id="1" version="0"><include href="g.xml"/></messageSchema>', "g.xml": good})]
+    # every raw input also as the *included* file (its own parser, its own line table) and as a fragment next to a valid one
+    for rname, raw in xmlmut.RAW_INPUTS:
+        if len(raw) < 100000:
+            inc.append(("include of raw input `%s`" % rname, {"a.xml": '<?xml version="1.0"?><messageSchema package="p" id="1" version="0"><include href="r.xml"/></messageSchema>', "r.xml": raw}))
     for name, files in inc:
         jobs.append(("include: " + name, "include-graph", "files", files, None))
     # every include graph over a root and two fragment files with up to two includes each (cycles through a first, a
@@ -225,7 +229,7 @@ def run(tier, replay=None):
                 return label, opclass, rc, res, (txt or "")[-300:]
             elif kind == "files":
                 for fn, tx in payload.items():
-                    open(os.path.join(d, fn), "w").write(tx)
+                    open(os.path.join(d, fn), "wb" if isinstance(tx, bytes) else "w").write(tx)
                 cmd = [exe, "--output-dir", out, "a.xml"]
             else:
                 open(os.path.join(d, "good.xml"), "w").write(good)
